@@ -1,4 +1,5 @@
 """C17 - the collector's registry is exactly the set of live managed objects."""
+import re
 from hypothesis import strategies as st
 from ..core import Result, HarnessBug
 from . import gcx
@@ -6,15 +7,22 @@ from . import gcx
 ID = "C17"
 LEVEL = "exploration"
 BUDGET = {"quick": 1200, "thorough": 300000}
-RULE = ("case = history in a fresh Cello Thread (own collector): managed / root / raw allocations of instrumented objects, a "
-        "share of them from an arena at addresses chosen so that (addr>>3) falls into a requested residue class modulo the "
-        "registry size the insertion will see (same-home pile-ups, last-slot wrap-around, chains across the array end at "
-        "sizes 5, 11, 23, 53, 101, 197, ...), explicit del/del_root/del_raw, dropping references, forced collections, churn "
-        "(threshold collections, growth and shrink rehash), Boxes swept together with their pointees (removals during a sweep). "
+RULE = ("case = history in a fresh Cello Thread (own collector): managed / root / raw allocations (new, alloc without a "
+        "constructor call, copy) of instrumented objects, a share of them from an arena at addresses chosen so that (addr>>3) "
+        "falls into a requested residue class modulo the registry size the insertion will see (same-home pile-ups, last-slot "
+        "wrap-around, chains across the array end at sizes 5, 11, 23, 53, 101, 197, ...), objects of size 0 (address = end of "
+        "the block), 52 bytes and 1 MiB (far-away mmap addresses), library objects (containers, Thread objects) built directly "
+        "or retyped by assign / copy, explicit del/del_root/del_raw, dropping references, forced collections, churn "
+        "(threshold collections, growth and shrink rehash), Boxes swept together with their pointees and garbage Boxes whose "
+        "pointee is still registered (removals and shrink rehash during a sweep), stop/start windows with allocations (never "
+        "registered) and deletions of registered and unregistered objects inside. "
         "After EVERY op the executor compares the registry with its own ledger through the CELLO_VERIF accessor: mem(gc,p) <=> "
-        "p allocated managed/root and neither deleted nor finalised (checked for all live and all dead addresses and raw "
-        "objects), one entry per object with the right root flag, stored home == (addr>>3) % nslots, robin-hood probe order, "
-        "occupied == nitems < nslots, addresses within [minptr,maxptr], no mark bit left set. non-trivial = the history saw a "
+        "p allocated managed/root while running and neither deleted nor finalised (checked for all live and all dead addresses "
+        "and raw objects), one entry per object with the right root flag, no entry for a deleted / unregistered / unknown "
+        "object, stored home == (addr>>3) % nslots, robin-hood probe order, occupied == nitems < nslots, addresses within "
+        "[minptr,maxptr], no mark bit left set. An enumerated ladder grows the registry with 1200 / 9000 / 34000 roots through "
+        "every prime size up to 74093, sweeps half as many garbage objects out of the large table and shrinks it again by "
+        "scattered deletions, with the same check at every change of size. non-trivial = the history saw a "
         "displaced or wrapped entry AND a removal while entries were displaced AND both a growth and a shrink of the registry. "
         "distinct = distinct case JSON.")
 ASSUMPTIONS = ["finalisation is observed through the instrumented objects' destructors; conservative retention only delays it, the oracle follows the observed events",
@@ -31,27 +39,46 @@ def _case(draw):
     rootraw = []       # live root/raw handles
     n = draw(st.integers(3, 60))
     churn_next = 10000
+    nbig = 0
+    nodes = set()
+    stopped = False
+    window_objs = []
     burst_budget = 1 if draw(st.integers(0, 3)) == 0 else 0      # at most one large root burst, in a quarter of the cases
     res_pool = draw(st.lists(st.integers(0, 400), min_size=1, max_size=3))
     for _ in range(n):
-        o = draw(st.sampled_from(["new", "new", "new", "newa", "newa", "newa", "del", "drop", "collect", "churn", "box", "burst", "rootburst"]))
-        if o in ("new", "newa"):
+        o = draw(st.sampled_from(["new", "new", "new", "newa", "newa", "newa", "newx", "del", "del", "drop", "collect", "churn", "box", "burst",
+                                  "rootburst", "copy", "lib", "stop", "start", "boxlive"]))
+        if o in ("new", "newa", "newx"):
             cls = draw(st.sampled_from(["m", "m", "m", "root", "raw"]))
             nobj += 1
             h = nobj
             if o == "newa":
                 res = draw(st.one_of(st.sampled_from(res_pool), st.just(-1), st.sampled_from(res_pool).map(lambda r: r + 1)))
                 ops.append(["new", h, "nodea", cls, res])
+            elif o == "newx":
+                # other address patterns: a size-0 object (its address is the end of its block), a 1 MiB object (mmap'd
+                # far away from the rest: widens [minptr, maxptr]), a 52-byte object; new or alloc without construct
+                kind = draw(st.sampled_from(["nodez", "nodez", "nodeo", "nodeb"]))
+                if kind == "nodeb":
+                    if nbig >= 2:
+                        kind = "nodez"
+                    else:
+                        nbig += 1
+                ops.append([draw(st.sampled_from(["new", "new", "alloc"])), h, kind, cls])
             else:
-                ops.append(["new", h, "node", cls])
-            if cls == "m":
+                ops.append([draw(st.sampled_from(["new", "new", "new", "alloc"])), h, "node", cls])
+            if ops[-1][2] in ("node", "nodea", "nodeo"):
+                nodes.add(h)                # sources of copy()
+            if stopped and cls != "raw":
+                window_objs.append(h)       # not registered: deleted by hand inside the window
+            elif cls == "m":
                 if draw(st.booleans()) and len(kept) < 16:
                     slot = min(set(range(16)) - set(kept))
                     kept[slot] = h
                     ops.append(["stk", slot, h])
             else:
                 rootraw.append(h)
-        elif o == "burst":
+        elif o == "burst" and not stopped:
             # many arena objects into the same residue classes: long probe chains / wrap-around
             cnt = draw(st.sampled_from([4, 9, 20, 45]))
             r = draw(st.sampled_from(res_pool))
@@ -59,7 +86,7 @@ def _case(draw):
             for j in range(cnt):
                 nobj += 1
                 ops.append(["new", nobj, "nodea", "m", -2 if last else r + (j % 2)])
-        elif o == "rootburst" and burst_budget:
+        elif o == "rootburst" and burst_budget and not stopped:
             burst_budget = 0
             # many root objects at once: the registry passes through the larger sizes (197, 389, 683) with live entries,
             # and shrinks again when they are deleted.  One compact op (expanded when the case is encoded).
@@ -69,7 +96,9 @@ def _case(draw):
             nobj += cnt
         elif o == "del":
             cands = list(kept.items())
-            if rootraw and (not cands or draw(st.booleans())):
+            if window_objs and draw(st.booleans()):
+                ops.append(["del", window_objs.pop(draw(st.integers(0, len(window_objs) - 1)))])
+            elif rootraw and (not cands or draw(st.booleans())):
                 h = rootraw.pop(draw(st.integers(0, len(rootraw) - 1)))
                 ops.append(["del", h])
             elif cands:
@@ -86,10 +115,51 @@ def _case(draw):
             ops.append(["collect"])
         elif o == "churn":
             cnt = draw(st.sampled_from([5, 20, 60, 150]))
-            if churn_next + cnt < 39000:
+            if churn_next + cnt < 39000 and not stopped:
                 ops.append(["churn", churn_next, cnt])
                 churn_next += cnt
-        elif o == "box":
+        elif o == "copy" and not stopped:
+            srcs = sorted(h for h in kept.values() if h in nodes)
+            if srcs:
+                nobj += 1
+                ops.append(["copy", nobj, draw(st.sampled_from(srcs))])
+        elif o == "lib" and not stopped:
+            # a library object (container / Thread object), built directly or retyped from a container of scalars by
+            # assign / copy from an empty source: exactly one registry entry, for the object itself
+            kind = draw(st.sampled_from(["arr", "lst", "tab", "tre", "tup", "tabr", "trer", "thr", "arrb", "lstb", "tabb", "treb"]))
+            cls = draw(st.sampled_from(["m", "m", "root", "raw"]))
+            rt = draw(st.sampled_from([0, 1, 2, 3])) if kind not in ("tup", "thr") else 0
+            nobj += 1
+            ops.append(["new", nobj, kind, cls] + (["retype%d" % rt] if rt else []))
+            if cls == "m":
+                if draw(st.booleans()) and len(kept) < 16:
+                    slot = min(set(range(16)) - set(kept))
+                    kept[slot] = nobj
+                    ops.append(["stk", slot, nobj])
+            else:
+                rootraw.append(nobj)
+        elif o == "stop" and not stopped:
+            ops.append(["stop"])
+            stopped = True
+        elif o == "start" and stopped:
+            for h in window_objs:
+                ops.append(["del", h])
+            window_objs = []
+            ops.append(["start"])
+            stopped = False
+        elif o == "boxlive" and not stopped and len(kept) < 16:
+            # a garbage Box whose pointee is still seen by the conservative scan: the Box's destructor removes a
+            # REGISTERED entry (and may shrink the registry) while the sweep is finalising its pending list
+            slot = min(set(range(16)) - set(kept))
+            nobj += 2
+            t, b = nobj - 1, nobj
+            ops.append(["note", "box-deletes-registered-pointee"])
+            ops.append(["new", t, "nodea", "m", draw(st.sampled_from(res_pool))] if draw(st.booleans()) else ["new", t, "node", "m"])
+            ops.append(["stk", slot, t])
+            ops.append(["new", b, "box", "m", t])
+            ops.append(["collect"])
+            ops.append(["unstk", slot])
+        elif o == "box" and not stopped:
             # owner and owned both unreferenced: the sweep meets them in either order
             nobj += 2
             t, b = nobj - 1, nobj
@@ -100,6 +170,10 @@ def _case(draw):
                 ops.append(["new", t, "node", "m"])
                 ops.append(["new", b, "box", "m", t])
     # delete what must be deleted by hand
+    if stopped:
+        for h in window_objs:
+            ops.append(["del", h])
+        ops.append(["start"])
     for h in rootraw:
         ops.append(["del", h])
     return {"ops": ops, "cfg": draw(st.sampled_from(["asan", "plain"]))}
@@ -123,7 +197,17 @@ def encode(case):
             elif op[2] == "box":
                 lines.append("new %d box %s %d" % (op[1], op[3], op[4]))
             else:
-                lines.append("new %d node %s" % (op[1], op[3]))
+                if len(op) > 4 and str(op[4]).startswith("retype"):
+                    lines.append("retype %s" % op[4][6:])
+                lines.append("new %d %s %s" % (op[1], op[2], op[3]))
+        elif o == "alloc":
+            lines.append("alloc %d %s %s" % (op[1], op[2], op[3]))
+        elif o == "copy":
+            lines.append("copy %d %d" % (op[1], op[2]))
+        elif o in ("stop", "start"):
+            lines.append(o)
+        elif o == "note":
+            continue
         elif o == "stk":
             lines.append("stk %d %d" % (op[1], op[2]))
         elif o == "unstk":
@@ -150,6 +234,9 @@ def encode(case):
                     lines.append("gcchk")
         elif o == "churn":
             lines.append("churn %d %d" % (op[1], op[2]))
+        elif o == "many":
+            # bulk (de)allocation; the executor checks the registry at every change of its size (answers on one line)
+            lines.append("many %s %d %d %s" % (op[1], op[2], op[3], op[4]))
         else:
             raise HarnessBug(o)
         lines.append("gcchk")
@@ -165,16 +252,32 @@ def run_case(ctx, case):
     if len(obs) != len(lines) + 1:
         return Result("executor stopped: %s" % (obs[-1] if obs else "no output"), False, ev, None)
     saw_disp = saw_rem_disp = grew = shrank = False
+    sizes = set()
     last_ns = None
     prev_disp = False
     for l, o in zip(lines, obs):
         if " exc " in o or " depth=" in o or " err=[" in o:
             return Result("op `%s`: %s" % (l, o), False, ev, None)
-        if l == "gcchk":
+        if l.startswith("many"):
+            parts = [x for x in o.split(" | ") if x.strip()]
+            if not parts:
+                return Result("bulk op `%s` reported no registry check: %s" % (l, o), False, ev, None)
+            for part in parts:
+                kv = gcx.parse_kv(part)
+                if kv.get("bad") != "-":
+                    return Result("registry check during `%s`: %s" % (l, part), True, ev, None)
+                ns = int(kv["nslots"])
+                sizes.add(ns)
+                if last_ns is not None:
+                    grew |= ns > last_ns
+                    shrank |= ns < last_ns
+                last_ns = ns
+        elif l == "gcchk":
             kv = gcx.parse_kv(o)
             if kv.get("bad") != "-":
                 return Result("registry check after previous op: %s" % o, True, ev, None)
             ns = int(kv["nslots"])
+            sizes.add(ns)
             if last_ns is not None:
                 grew |= ns > last_ns
                 shrank |= ns < last_ns
@@ -182,7 +285,7 @@ def run_case(ctx, case):
             d = int(kv["disp"]) > 0 or int(kv["wrap"]) > 0
             saw_disp |= d
             prev_disp = d
-        elif l.startswith("del") or l == "collect":
+        elif l.startswith("del") or l == "collect" or l.startswith("many del"):
             if prev_disp:
                 saw_rem_disp = True
     td = gcx.parse_teardown(obs[-1])
@@ -190,6 +293,34 @@ def run_case(ctx, case):
         return Result("no teardown report: " + obs[-1], False, ev, None)
     if td["err"] != "[]":
         return Result("executor ledger error: " + obs[-1], True, ev, None)
+    cls = set()
+    win = False
+    for op in case["ops"]:
+        if op[0] in ("new", "alloc"):
+            if op[2] in ("nodez", "nodeo", "nodeb"):
+                cls.add("size=" + {"nodez": "0", "nodeo": "52", "nodeb": "1MiB"}[op[2]])
+            elif op[2] not in ("node", "nodea", "box"):
+                cls.add("library-object")
+            if op[0] == "alloc":
+                cls.add("alloc-without-construct")
+            if len(op) > 4 and str(op[4]).startswith("retype"):
+                cls.add("retyped")
+            if win:
+                cls.add("alloc-in-stop-window")
+        elif op[0] == "copy":
+            cls.add("copy")
+        elif op[0] == "stop":
+            win = True
+        elif op[0] == "start":
+            win = False
+        elif op[0] == "del" and win:
+            cls.add("del-in-stop-window")
+        elif op[0] == "note":
+            cls.add(op[1])
+    ev += sorted(cls)
+    if sizes:
+        big = max(sizes)
+        ev.append("max-registry-size" + ("<=197" if big <= 197 else "<=683" if big <= 683 else "<=4733" if big <= 4733 else "<=37097" if big <= 37097 else "=%d" % big))
     if saw_disp:
         ev.append("displaced-or-wrapped")
     if grew:
@@ -201,6 +332,34 @@ def run_case(ctx, case):
 
 def SAMPLE(case):
     return {"cfg": case["cfg"], "ops": case["ops"][:16] + (["..."] if len(case["ops"]) > 16 else [])}
+
+
+def ladder_case(n, cfg):
+    """n root objects (the registry grows through every size up to the one n needs), a collection, n/2 unreferenced
+    managed objects (threshold collections sweep them out of the large table), then the roots are deleted in a
+    scattered order (the registry shrinks through every size again)"""
+    step = 7919 if n % 7919 else 7907
+    return {"cfg": cfg, "ops": [["new", 1, "node", "m"], ["stk", 0, 1],
+                                ["many", "new", 100, n, "root"], ["collect"],
+                                ["many", "new", 100 + n, n // 2, "m"], ["collect"],
+                                ["new", 2, "nodea", "m", -2], ["new", 3, "nodea", "root", -2], ["new", 4, "nodea", "m", -2], ["collect"],
+                                ["many", "del", 100, n, str(step)], ["del", 3], ["collect"]]}
+
+
+def extra_phase(ctx, tier, stats, sample_fn):
+    """registry ladder: growth and shrink through the prime sizes up to 74093 with the root flags and the count checked
+    at every change of size"""
+    fails = []
+    done = {}
+    for n in (1200, 9000, 34000):
+        for cfg in ("plain", "asan"):
+            case = ladder_case(n, cfg)
+            res = run_case(ctx, case)
+            stats.add(case, res, sample_fn)
+            done["%d/%s" % (n, cfg)] = "ok" if not res.fail else "FAIL"
+            if res.fail:
+                fails.append((case, res.fail))
+    return {"fails": fails, "extra": {"registry_ladder": done}}
 
 
 KNOWN = []
